@@ -115,6 +115,9 @@ func IndexSites(fn *ssa.Function) []IndexSite {
 			if !isByteSeqT(base.Type()) {
 				continue
 			}
+			if _, isConst := base.(*ssa.Const); isConst {
+				continue // a constant string is not remote input
+			}
 			s := IndexSite{Fn: fn, Instr: ins, Base: Sig(base), Kind: kind}
 			if kind == "index" {
 				s.Index = Sig(idx)
